@@ -280,15 +280,21 @@ func (c *ctx) malformed(us []*universe.UStruct, perType int) {
 	r := c.r
 	for _, u := range us {
 		for i := 0; i < perType; i++ {
+			// the first message of every type has no empty container, so that the count sweep below
+			// reaches every container position of the type whatever the map iteration order
+			g.minLen = 0
+			if i == 0 {
+				g.minLen = 2
+			}
 			tv := c.mkMessage(c.writerOf(u), g)
 			if tv == nil {
 				continue
 			}
-			if r.Intn(2) == 0 {
+			if i > 0 && r.Intn(2) == 0 {
 				c.decorate(tv)
 			}
 			msg := tv.ser(nil)
-			if len(msg) > 400 {
+			if len(msg) > 400 && (i > 0 || len(msg) > 1200) {
 				continue
 			}
 			var inputs [][]byte
@@ -296,6 +302,9 @@ func (c *ctx) malformed(us []*universe.UStruct, perType int) {
 			step := 1
 			if c.tier != "thorough" && len(msg) > 40 {
 				step = 1 + len(msg)/40
+			}
+			if i == 0 && len(msg) > 400 {
+				step = len(msg) // the full-container message is for the count sweep only
 			}
 			for l := 0; l < len(msg); l += step {
 				inputs = append(inputs, msg[:l])
@@ -334,7 +343,10 @@ func (c *ctx) malformed(us []*universe.UStruct, perType int) {
 			// structure-aware: every container's count set to values around remaining/k
 			var conts []*TV
 			tv.containers(&conts)
-			for _, cn := range conts {
+			for ci, cn := range conts {
+				if ci >= 12 && c.tier != "thorough" {
+					break
+				}
 				whole := len(tv.ser(nil))
 				hdr := 5
 				if cn.T == tMAP {
@@ -369,12 +381,7 @@ func (c *ctx) malformed(us []*universe.UStruct, perType int) {
 			r.Read(rb)
 			inputs = append(inputs, rb)
 			for _, in := range inputs {
-				var ms0, ms1 runtime.MemStats
-				runtime.ReadMemStats(&ms0)
 				c.h.opDec(u, in, reflect.New(u.Type), false)
-				runtime.ReadMemStats(&ms1)
-				_ = ms0
-				_ = ms1
 			}
 		}
 	}
